@@ -1261,6 +1261,19 @@ func (app *App) performSwitchover(clusterState map[string]*nodestate.NodeState, 
 		activeNodes = filterOut(activeNodes, []string{oldMaster})
 	}
 
+	// a host may still be in the published list after it was unregistered: the procedure cannot act on it.
+	// It stays in activeNodesWithOldMaster, so the failover quorum is still computed over the published list
+	var unregistered []string
+	for _, host := range activeNodes {
+		if app.cluster.Get(host) == nil || clusterState[host] == nil {
+			unregistered = append(unregistered, host)
+		}
+	}
+	if len(unregistered) > 0 {
+		app.logger.Warn().Msgf("switchover: active nodes %v are not registered, leaving them out", unregistered)
+		activeNodes = filterOut(activeNodes, unregistered)
+	}
+
 	err := app.stopActiveNodeOptimization(oldMaster, activeNodes)
 	if err != nil {
 		return err
